@@ -13,7 +13,7 @@ BASE = dict(
     UsageOn='FALSE', Blur='0', Welcome='"w0"', MsgIds='{"~"}', AddMsgs='<- cAdd1',
     MoodSet='{"~"}', CVs='{"~"}', Malformed='FALSE', AdvanceSteps='{5}', MaxTime='0',
     MaxMsgs='1', MaxUsage='0', MaxDepth='100', WithStop='FALSE', WithCrash='FALSE',
-    WithCrashIn='FALSE', WithFault='FALSE', WithTime='FALSE')
+    WithCrashIn='FALSE', WithFault='FALSE', WithTime='FALSE', Stringified='{}')
 
 S3 = '{"s1", "s2", "s3"}'
 INSTANCES = {
@@ -76,9 +76,9 @@ def cfg_text(inst, props, depth=None, extra=None):
 # random-history profiles (harness/mbh/gen.py)
 PROFILES = {
     "mailbox": dict(apps=["a1"], sides=["s1", "s2"], names=["1", "x"], client_mbox=["m1", "m2"],
-                    steps=45, w_stop=0.3, w_crash=0.3),
+                    steps=45, w_stop=0.3, w_crash=0.3, nonstring=0.06),
     "fanout": dict(apps=["a1"], sides=["s1", "s2"], names=["1"], client_mbox=["m1"], steps=60,
-                   conns=("c1", "c2", "c3", "c4", "c5"), w_stop=0.5, w_crash=0.3, w_connect=5),
+                   conns=("c1", "c2", "c3", "c4", "c5"), w_stop=0.5, w_crash=0.3, w_connect=5, nonstring=0.06),
     "nameplate": dict(apps=["a1"], sides=["s1", "s2"], names=["1", "2", "x", "y"], client_mbox=["m1"],
                       steps=50),
     "crowd": dict(apps=["a1"], sides=["s1", "s2", "s3", "s4"], names=["1"], client_mbox=["m1"],
@@ -92,20 +92,27 @@ PROFILES = {
     "usage": dict(apps=["a1", "a2"], sides=["s1", "s2", "s3"], names=["1", "x"], client_mbox=["m1"],
                   steps=50, w_advance=5, usage=True),
     "proto": dict(apps=["a1"], sides=["s1", "s2"], names=["1", "x"], client_mbox=["m1"], steps=50,
-                  w_malformed=6.0, extra_keys=True),
+                  w_malformed=6.0, extra_keys=True, nonstring=0.08),
     "alloc": dict(apps=["a1", "a2"], sides=["s1", "s2"], names=["1", "2", "3", "10", "x", "007", "0"], client_mbox=["m1"],
                   steps=40, type_weights=dict(allocate=6, release=2, close=1, add=1),
                   prefill_spec=dict(class1=[0, 5, 8, 9, 9], class2=[0, 0, 3], odd=["007", "0", "x", "1.0"])),
     # scripted clients: wormhole-like flows (allocate/claim/open/add/release/close) with
     # reconnects, re-sent commands, a second connection of one side, intruders, sweeps, restarts
     "script": dict(scripted=True, apps=["a1"], sides=["s1", "s2", "s3"], names=["1", "x"], client_mbox=["m1"],
-                   steps=70, conns=("c1", "c2", "c3", "c4", "c5"), w_stop=0.5, w_fault=0),
+                   steps=70, conns=("c1", "c2", "c3", "c4", "c5"), w_stop=0.5, w_fault=0, nonstring=0.05),
     "script2": dict(scripted=True, apps=["a1", "a2"], sides=["s1", "s2", "s3"], names=["1", "x"], client_mbox=["m1"],
                     steps=70, conns=("c1", "c2", "c3", "c4", "c5"), w_stop=1.0, w_fault=1.0, usage=True),
     "allocfull": dict(apps=["a1"], sides=["s1", "s2"], names=["1", "10", "100"], client_mbox=["m1"],
                       steps=25, type_weights=dict(allocate=8, release=2, close=1, add=1), final_quiesce=False,
+                      only_props=["C04.a", "C04.b", "C04.c"], skip_prefill_lines=True,
                       prefill_spec=dict(class1=[9], class2=[89, 90, 90], class3=[0, 0, 899, 900, 900],
                                         odd=["1000", "1001", "1002", "999999", "0999"])),
+    # every 1-, 2- and 3-digit nameplate in use, plus explicit claims of longer ones
+    "allocmax": dict(apps=["a1"], sides=["s1", "s2"], names=["1", "10", "100"], client_mbox=["m1"],
+                     steps=12, type_weights=dict(allocate=10, release=1, close=0, add=0, open=0, list=0, claim=1),
+                     final_quiesce=False, only_props=["C04.a", "C04.b", "C04.c"], plain_strings=True,
+                     skip_prefill_lines=True,
+                     prefill_spec=dict(class1=[9], class2=[90], class3=[900], always=["1000", "1001", "1002"])),
 }
 
 # ---------------------------------------------------------------------------
@@ -136,7 +143,7 @@ PLAN = {
     "C04": dict(_p(["C04.a", "C04.b", "C04.c"], [("alloc", 8, 11), ("allocnl", 8, 11)], ["core"],
                    ["alloc", "nameplate"], ["P04"]),
                 variants={"alloc": [dict(allow=True), dict(allow=False)]},
-                thorough_profiles=["allocfull"]),
+                thorough_profiles=["allocfull", "allocmax"], quick_extra=[("allocmax", 1)]),
     "C09": dict(_p(["C09.a", "C09.b"], [("crash", 8, 11), ("crashu", 7, 10)], ["crash", "crashu"],
                    ["crash", "usage", "mailbox", "script2", "crowd"], ["P09"]),
                 variants={"crash": [dict(), dict(usage=True)]}),
@@ -183,7 +190,7 @@ PAIR_BASE = dict(
     LongNames='{"1000"}', OtherNames='{"x"}', ClientMbox='{"m1"}', GenMbox='<- cGen2', EXP='11', PERIOD='5',
     AllowList='TRUE', UsageOn='TRUE', Blur='0', Welcome='"w0"', MsgIds='{"~"}', AddMsgs='<- cAdd1',
     MoodSet='{"~"}', ClaimNames='{"1"}', PickSet='{"1", "2"}', AdvanceSteps='{5, 6}', MaxTime='17',
-    MaxMsgs='1', MaxDepth='8')
+    MaxMsgs='1', MaxDepth='8', Stringified='{}')
 PAIR_INST = {
     "iso": dict(Apps='{"a1", "a2"}', AppOrder='<- cAppOrder2'),
     "restart": dict(),
@@ -208,7 +215,7 @@ CFG_ALTS = [("FALSE", "TRUE", "3"), ("TRUE", "TRUE", "7"), ("FALSE", "FALSE", "0
 
 def paircfg_cfg_text(alt, depth):
     c = dict(PAIR_BASE)
-    for k in ("AppB", "Spare", "AllowList", "UsageOn", "Blur", "MsgIds", "MaxDepth"):
+    for k in ("AppB", "Spare", "AllowList", "UsageOn", "Blur", "MsgIds", "MaxDepth", "Stringified"):
         c.pop(k, None)
     c.update(AL1="TRUE", US1="FALSE", BL1="0", AL2=alt[0], US2=alt[1], BL2=alt[2], ClaimNames='{"1", "x"}',
              AdvanceSteps="{5, 12}", MaxDepth=str(depth))
